@@ -150,9 +150,10 @@ def classify_sequence(kind, seq, want_len):
         return "refuse", None
     if isinstance(seq, (bytes, bytearray)):
         if ek[0] != "byte":
-            # bytes iterate as ints: statement does not speak about it for int arrays
-            return ("either", None) if len(seq) == want_len else ("refuse", None)
-        return ("accept", list(seq)) if len(seq) == want_len else ("refuse", None)
+            # a bytes object is a sequence of ints 0..255: each element is judged like any other int
+            seq = list(seq)
+        else:
+            return ("accept", list(seq)) if len(seq) == want_len else ("refuse", None)
     try:
         items = list(seq)
     except TypeError:
